@@ -163,7 +163,7 @@ def execute_xy(scenario):
         try:
             env, X0, Y0, rate0 = xy.make_env(scenario)
         except Exception as e:
-            return {"violations": [], "digest": core.digest(["build", type(e).__name__]), "probes": {"build_refused": 1}, "faults": {},
+            return {"violations": [], "digest": core.digest(["build", core.exc_name(e)]), "probes": {"build_refused": 1}, "faults": {},
                     "stats": {"ops": 1}, "trace": "xy-refused", "nontrivial": False}
         ycols = [str(c.symbol) for c in env.Y.columns]
         np.random.seed(scenario.get("np_seed", 0) % (2 ** 32))
@@ -172,7 +172,7 @@ def execute_xy(scenario):
             try:
                 env.reset()
             except Exception as e:
-                return {"violations": [], "digest": core.digest(["reset", type(e).__name__]), "probes": {"reset_refused": 1}, "faults": {},
+                return {"violations": [], "digest": core.digest(["reset", core.exc_name(e)]), "probes": {"reset_refused": 1}, "faults": {},
                         "stats": {"ops": 1}, "trace": "xy-reset-refused", "nontrivial": False}
             done = bool(getattr(env, "_done", False))
             k = 0
@@ -189,7 +189,7 @@ def execute_xy(scenario):
                     obs, reward, done, info = env.step(a)
                     exc = None
                 except Exception as e:
-                    exc = type(e).__name__
+                    exc = core.exc_name(e)
                 tr = env.broker.track_record
                 hold = {str(getattr(c, "symbol", c)): float(q) for c, q in env.broker.holdings_quantity.items() if q != 0 and type(c).__name__ != "Cash"}
                 log.append([k, exc, len(tr)])
